@@ -113,7 +113,7 @@ def parseViews : Nat → List String → Option (List View × List String)
     else if t == "B[" then (body ts).bind fun (vs, r) => cont (View.eb vs) r
     else none
 
-/-! known-finding classes (decidable predicates on the view / mode) -/
+/-! the classes of the repaired findings F-C07-2/3/4/5 (kept for reference; no known-finding class is left) -/
 mutual
 def hasEb : View → Bool
   | .raw _ => false
@@ -184,7 +184,7 @@ def step (st : St) (line : String) : St × String :=
         let ooo := mode == "ooo"
         ({ run := some (startStream ooo done0 ops), ooo := ooo,
            ref := if ooo then oooDocOps ops else docOps ops,
-           cls := if hasNoneOooL ops then "ooo-none-inline-drops-fallback" else "unclassified" }, "ok")
+           cls := "unclassified" }, "ok")
       else (st, "bad-op")
     | _, _ => (st, "bad-op")
   | "view" :: mode :: d0 :: toks =>
@@ -193,10 +193,7 @@ def step (st : St) (line : String) : St × String :=
       if mode == "io" || mode == "ooo" then
         let ooo := mode == "ooo"
         let v := View.seq vs
-        let cls :=
-          if hasNestedSuspend .top v then "nested-suspend-dropped"
-          else if hasEb v then (if ooo then "eb-ooo-duplicate-id" else "eb-inorder-misorder")
-          else "unclassified"
+        let cls := "unclassified"
         ({ run := some (startStream ooo done0 (compile ooo .top v)), ooo := ooo, ref := viewDoc v, cls := cls }, "ok")
       else (st, "bad-op")
     | _, _ => (st, "bad-op")
